@@ -235,6 +235,13 @@ def run(ctx):
                                 anchors_w.add(min(inner_, key=lambda x_: len(x_[1]))[0])
             if okw and anchors_w:
                 byp_ = c.bb in (b.reachable_from(0, avoid=tuple(anchors_w)) | {0})
+                if byp_:
+                    # a constructor call of its own behind `edges.is_empty()` / `len() == 0`: nothing to re-weight there
+                    from flow import desc_mentions as _dm15
+
+                    for (te_, v_, a_) in controlling_atoms(fl, c.bb):
+                        if isinstance(te_, tuple) and _dm15(te_, lambda x: isinstance(x, tuple) and x[0] == "call" and x[1].split("::")[-1] in ("get_all_edges", "number_of_edges", "is_empty", "len")) and _dm15(te_, lambda x: isinstance(x, tuple) and ((x[0] == "call" and x[1].split("::")[-1] == "is_empty") or (x[0] == "const" and x[1].replace("const ", "").startswith("0")))) and _dm15(te_, lambda x: isinstance(x, tuple) and ((x[0] == "call" and x[1].split("::")[-1] in ("get_all_edges", "number_of_edges")) or (x[0] == "place" and "edges" in x[1]))):
+                            byp_ = False
                 ctx.require(not byp_, "R-C15-4", "edges-always|set_all_edge_weights", "the constructor call of set_all_edge_weights is reached only through the per-edge weight assignment",
                             "set_all_edge_weights can reach its constructor call without mapping the weight assignment over the edges (a short cut around it): on that path the edges keep their stored weights, so not every weight of the result is `weight`", loc_str(c.span))
             ctx.require(okw and "edges" in efs, "R-C15-4", "edges|set_all_edge_weights", "every edge's weight is assigned exactly the `weight` parameter, unconditionally",
